@@ -330,6 +330,16 @@ def c02(res, tier, rng, wd):
         scs.append(e1.scenario(len(scs), "rtu", [1, 2], steps, seed=rng.randrange(100), tag=f"c02-rtu-reopen-after-{kind}"))
     split = e1.gen_split_with_command(rng, 60 if thorough else 16, len(scs), auth_modes=AUTH_MODES[:3], tagp="c02")
     scs += split
+    # a unit id registered twice: ServerHandlerMap::add replaces, so only the handler registered last is "their" handler
+    for k in range(12 if thorough else 4):
+        framing = rng.choice(["tcp", "rtu"])
+        w0 = e1.req_wsr(rng.randrange(50), rng.randrange(65536))
+        ws = [w0, e1.req_wmc(3, [True, False, True]), e1.req_read(3, 0, 6), e1.req_read(1, 2, 11)]
+        rng.shuffle(ws)
+        steps = [e1.rx(e1.frame(framing, 100 + i, rng.choice([1, 2]), p)) for i, p in enumerate(ws + [e1.readback_of(w0)])]
+        sc_ = e1.scenario(len(scs), framing, [1, 2], steps, seed=rng.randrange(100), tag="c02-unit-registered-twice")
+        sc_["replaced_units"] = [1, 2] if k % 2 else [rng.choice([1, 2])]
+        scs.append(sc_)
     for i, x in enumerate(scs):
         x["id"] = i
     run_e1(res, "C02", scs, wd, "c02")
@@ -841,6 +851,13 @@ def retry_object(res, pid, wd, thorough=False):
                 f.write(json.dumps({"min": 1000, "max": 60000, "default_strategy": True, "calls": "".join(seq)}) + "\n")
                 n += 1
         f.write(json.dumps({"min": 1, "max": 1000000, "calls": "f" * 25 + "r" + "f" * 3}) + "\n")
+        # a long outage: far more consecutive failures than any counter or shift width in the implementation
+        for (mn, mx) in ((1, 1000000), (100, 250), (1000, 60000), (7, 7)):
+            f.write(json.dumps({"min": mn, "max": mx, "calls": "f" * 80 + "d" + "f" * 70 + "r" + "f" * 3}) + "\n")
+            n += 1
+        f.write(json.dumps({"min": 1000, "max": 60000, "default_strategy": True, "calls": "f" * 140}) + "\n")
+        f.write(json.dumps({"min": 3, "max": 2000000, "micros": True, "calls": "f" * 90}) + "\n")
+        n += 2
         # delays that are not whole milliseconds (units: microseconds)
         for (mn, mx) in ((1500, 6000), (500, 4000), (1, 7), (999, 1000001), (2500, 2500)):
             for ln in range(1, 6):
